@@ -627,6 +627,9 @@ class PSFPhotometry(ModelImageMixin):
             finite_mask |= mask
             if np.any(finite_mask & ~mask):
                 warn_nonfinite()
+            # the non-finite pixels are masked in addition to the input
+            # mask (a new array; the input mask is not modified)
+            mask = finite_mask
         else:
             mask = finite_mask
             if np.any(finite_mask):
